@@ -122,8 +122,9 @@ def _expected(calling16, called16, req_list, require_called, own, id_present, ha
     if require_called and not _title_matches(called16, [own]):
         rsd = REJ_CALLED
     # handler: 0 not bound, 1 (True, None), 2 (True, bytes), 3 (False, None), 4 raises ValueError,
-    #          5 raises NotImplementedError, 6 (False, bytes)
-    if id_present and handler in (3, 4, 5, 6):
+    #          5 raises NotImplementedError, 6 (False, bytes), 7 (None, None), 8 (0, bytes) - a verdict that is
+    #          not positive (falsy, e.g. `entry and check(...)` for an unknown user), 9 (1, None) - truthy
+    if id_present and handler in (3, 4, 5, 6, 7, 8):
         rsd = REJ_IDENTITY
     if n_active > max_assoc:
         rsd = REJ_LIMIT
@@ -151,6 +152,12 @@ def _user_id_result(handler):
         return ValueError("handler failed")
     if handler == 5:
         return NotImplementedError("identity type not supported by this handler")
+    if handler == 7:
+        return (None, None)
+    if handler == 8:
+        return (0, b"resp")
+    if handler == 9:
+        return (1, None)
     return (False, b"resp")
 
 
@@ -286,6 +293,9 @@ def on_user_id(event):
     if h == 3: return False, None
     if h == 4: raise ValueError("handler failed")
     if h == 5: raise NotImplementedError("identity type not supported by this handler")
+    if h == 7: return None, None
+    if h == 8: return 0, b"resp"
+    if h == 9: return 1, None
     return False, b"resp"
 handlers = [(evt.EVT_USER_ID, on_user_id)] if h else []
 scp = ae.start_server(("127.0.0.1", 0), block=False, ae_title=cfg["own"], evt_handlers=handlers)
@@ -488,13 +498,13 @@ def _id_type_ok(id_type):
 
 
 @harness(
-    "C13", timeout=(170, 900), shards=[{"h": k} for k in range(7)], findings=["C13-identity-notimplemented"], e2e=_e2e_identity,
+    "C13", timeout=(170, 900), shards=[{"h": k} for k in range(10)], findings=["C13-identity-notimplemented"], e2e=_e2e_identity,
     functions=["acse:ACSE._negotiate_as_acceptor", "acse:ACSE._check_user_identity", "events:trigger",
                "association:Association.run_reactor", "acse:ACSE.send_reject", "acse:ACSE.send_accept",
                "pdu_items:UserIdentitySubItemRQ.to_primitive", "association:Association._serve_request"],
     bounds="user identity item absent or of type 1..5 (quick: absent, 1, 3) with/without positive response requested; "
            "EVT_USER_ID handler (shard): not bound / returns (True, None) / (True, bytes) / (False, None) / raises "
-           "ValueError / raises NotImplementedError / (False, bytes); calling title matches the one-entry list or not; "
+           "ValueError / raises NotImplementedError / (False, bytes) / (None, None) / (0, bytes) / (1, None); calling title matches the one-entry list or not; "
            "called title matches or not; each check enabled or not; association limit exceeded (1 other active acceptor "
            "association, maximum 1) or not",
     stubs=STUBS,
